@@ -3,7 +3,7 @@
 //! wrappers and the DictZip dictionary loaders.
 use std::cell::RefCell;
 
-use super::{bytes_via_file, limit_address_space, with_file};
+use super::{bytes_via_file, forgive_bounded_prealloc, limit_address_space, with_file, SERDE_CAUTIOUS_CAP};
 use crate::{payloads, seed, P};
 use zverif::mutate::Seed;
 use zverif::Tier;
@@ -477,19 +477,48 @@ pub fn all(tier: Tier) -> Vec<P> {
             len_arg: false,
             small: th,
         },
-        P { name: "dict_zip::DfaCache::deserialize", seeds: dfa_cache_seeds, parse: |b, _| DfaCache::deserialize(b).is_ok(), len_arg: false, small: th },
-        P { name: "SuffixArrayDictionary::deserialize", seeds: sa_dict_seeds, parse: |b, _| SuffixArrayDictionary::deserialize(b).is_ok(), len_arg: false, small: th },
+        // bincode containers: see `forgive_bounded_prealloc`
+        P {
+            name: "dict_zip::DfaCache::deserialize",
+            seeds: dfa_cache_seeds,
+            parse: |b, _| {
+                let ok = DfaCache::deserialize(b).is_ok();
+                forgive_bounded_prealloc(SERDE_CAUTIOUS_CAP);
+                ok
+            },
+            len_arg: false,
+            small: th,
+        },
+        P {
+            name: "SuffixArrayDictionary::deserialize",
+            seeds: sa_dict_seeds,
+            parse: |b, _| {
+                let ok = SuffixArrayDictionary::deserialize(b).is_ok();
+                forgive_bounded_prealloc(SERDE_CAUTIOUS_CAP);
+                ok
+            },
+            len_arg: false,
+            small: th,
+        },
         P {
             name: "SuffixArrayDictionary::load_from_file",
             seeds: sa_dict_file_seeds,
-            parse: |b, _| with_file(b, |p| SuffixArrayDictionary::load_from_file(p).is_ok()),
+            parse: |b, _| {
+                let ok = with_file(b, |p| SuffixArrayDictionary::load_from_file(p).is_ok());
+                forgive_bounded_prealloc(SERDE_CAUTIOUS_CAP);
+                ok
+            },
             len_arg: false,
             small: false,
         },
         P {
             name: "DictZipBlobStore::from_dictionary_file",
             seeds: sa_dict_file_seeds,
-            parse: |b, _| with_file(b, |p| DictZipBlobStore::from_dictionary_file(p, DictZipConfig::default()).is_ok()),
+            parse: |b, _| {
+                let ok = with_file(b, |p| DictZipBlobStore::from_dictionary_file(p, DictZipConfig::default()).is_ok());
+                forgive_bounded_prealloc(SERDE_CAUTIOUS_CAP);
+                ok
+            },
             len_arg: false,
             small: false,
         },
